@@ -14,3 +14,12 @@ PROP = dict(
                  budget={"quick": 60, "thorough": 240}),
             dict(kind="tlc", name="ideal", module="Shutdown", cfg={"quick": "MC_Shutdown_ideal.cfg", "thorough": "MC_Shutdown_ideal.cfg"}, workers=4)],
 )
+
+import os, sys  # noqa: E402
+sys.path.insert(0, os.path.dirname(os.path.dirname(os.path.abspath(__file__))))
+import extstages  # noqa: E402
+# coverage extension CX6 (lib/ext/CX6.py, spec/OpAMP.tla): the OpAMP agent (agent/agent.go is one of C36's anchors). Its health walk includes Stop:
+# every goroutine of the agent must have ended (StopEnds). On the unchanged tree it reproduced Agent.healthCheck spinning forever after Stop
+# (empty case on ctx.Done()), repaired by fix 8af5346; the deviation edge stays in OpAMP.tla, so the defect returning is reported again.
+# This stage DECIDES (a goroutine left running after Stop is what C36 forbids); the rest of CX6 is hosted by C27 / C34 as advisory stages.
+PROP["stages"] += extstages.pick("CX6", ["health"])
